@@ -497,7 +497,7 @@ func (s *server) files() (names []string, data map[string][]byte) {
 		rel = filepath.ToSlash(rel)
 		b, _ := os.ReadFile(p)
 		names = append(names, rel)
-		data[rel] = timeRe.ReplaceAll(b, []byte("upload-time: T"))
+		data[rel] = timeRe.ReplaceAll(b, []byte("upload-time: 2006-01-02T15:04:05Z"))
 		return nil
 	})
 	sort.Strings(names)
@@ -827,10 +827,12 @@ func runScenario(id int, sc *scenario) {
 			var st []string
 			for _, n := range after.names {
 				if strings.HasPrefix(n, "uploads/"+rid+"/") {
+					// the upload id is written ID so that the specification need not know it
+					nm := strings.ReplaceAll(n, rid, "ID")
 					if s.mem != nil {
-						st = append(st, hx.HexS(n)+"=")
+						st = append(st, hx.HexS(nm)+"=")
 					} else {
-						st = append(st, hx.HexS(n)+"="+hx.Hex(after.data[n]))
+						st = append(st, hx.HexS(nm)+"="+hx.Hex(bytes.ReplaceAll(after.data[n], []byte(rid), []byte("ID"))))
 					}
 				}
 			}
@@ -981,6 +983,10 @@ func (g *gen) wrap(faulted reqSpec, tags ...string) *scenario {
 	sc := &scenario{user: hx.Pick(g.r, []string{"user", "", "gopher@example.com"}), store: "local", tags: tags}
 	if g.r.Chance(1, 5) {
 		sc.store = "mem"
+	}
+	if sc.store == "mem" && faulted.fault != nil && faulted.fault.leaves {
+		// MemFS has no Close that fails after publishing the file
+		sc.store = "local"
 	}
 	sc.reqs = append(sc.reqs, g.history()...)
 	sc.reqs = append(sc.reqs, faulted)
